@@ -288,6 +288,8 @@ class FakePool(object):
             initializer(*initargs)
 
     def map_async(self, fn, args, chunksize=None):
+        if self.closed:
+            raise ValueError("Pool not running")        # as multiprocessing.Pool._check_running
         sched = self.sched
 
         def body(a):
@@ -301,6 +303,8 @@ class FakePool(object):
         self.closed = True
 
     def join(self):
+        if not self.closed:
+            raise ValueError("Pool is still running")   # as multiprocessing.Pool.join
         self.joined = True
 
     def terminate(self):
